@@ -36,6 +36,12 @@ var IntOnlyPool = []string{
 	"9223372036854775806",
 }
 
+// Float32Pool: exactly the values of float32(0.1), float32(2.7), float32(-0.3), float32(1e-3):
+// float64-exact and float32-exact, but encoding/json spells the float32 with fewer digits.
+var Float32Pool = []string{
+	"0.100000001490116119384765625", "2.7000000476837158203125", "-0.300000011920928955078125", "0.001000000047497451305389404296875",
+}
+
 // StrPool: code-point vs byte vs UTF-16 length differ; JSON-Pointer and URI escapes.
 var StrPool = []string{
 	"", "a", "b", "ab", "abc", "abcd", "\u00e9", "e\u0301", "日本", "😀", "a/b", "~", "~0", "~1", "%",
@@ -102,8 +108,11 @@ func GenNum() *rapid.Generator[*V] {
 // GenNumWide additionally draws integers that are not float64-exact.
 func GenNumWide() *rapid.Generator[*V] {
 	return rapid.Custom(func(t *rapid.T) *V {
-		if rapid.IntRange(0, 4).Draw(t, "wide") == 0 {
+		switch rapid.IntRange(0, 9).Draw(t, "wide") {
+		case 0, 1:
 			return NumV(rapid.SampledFrom(IntOnlyPool).Draw(t, "inum"))
+		case 2:
+			return NumV(rapid.SampledFrom(Float32Pool).Draw(t, "f32num"))
 		}
 		return GenNum().Draw(t, "n")
 	})
